@@ -39,12 +39,16 @@ Definition is_lin_op (o : op) : bool :=
   | _ => false
   end.
 
+(* n-ary operations lifted share-wise by apply_op whose reading is an abstract additive map *)
+Definition is_nlin_op (o : op) : bool := match o with OStack _ | OConcatenate _ => true | _ => false end.
+
 (* the fragment of the correctness theorem: Add, Subtract, the bilinear operations Multiply, Dot,
-   Matmul, Gemm, and the share-wise lifted unary operations, over arrays/scalars *)
+   Matmul, Gemm, and the share-wise lifted unary and n-ary (Stack, Concatenate) operations, over
+   arrays/scalars *)
 Definition thm_op (o : op) : bool :=
   match o with
   | OInput t | OZeros t | OOnes t | OConstant t _ => is_leaf t
-  | OAdd | OSubtract | OMultiply | ODot | OMatmul | OGemm _ _ => true
+  | OAdd | OSubtract | OMultiply | ODot | OMatmul | OGemm _ _ | OStack _ | OConcatenate _ => true
   | _ => is_lin_op o
   end.
 Definition thm_frag (nodes : list node) : bool := forallb (fun nd => thm_op (n_op nd)) nodes.
@@ -57,6 +61,7 @@ Section DeepEval.
   Variable one : R.                (* the all-ones array *)
   Variable lin : op -> R -> R.     (* share-wise lifted unary operations *)
   Variable bil : op -> R -> R -> R. (* Dot / Matmul / Gemm *)
+  Variable nlin : op -> list R -> R. (* Stack / Concatenate *)
 
   Notation rval := (rval R).
 
@@ -102,6 +107,13 @@ Section DeepEval.
     | _ => None
     end.
 
+  Fixpoint leaves (vs : list rval) : option (list R) :=
+    match vs with
+    | [] => Some []
+    | RLeaf _ x :: r => match leaves r with Some xs => Some (x :: xs) | None => None end
+    | _ => None
+    end.
+
   Definition deval_node (i : Z) (o : op) (vs : list rval) : option rval :=
     match o with
     | OZeros t => match vs with [] => if is_leaf t then Some (RLeaf R r0) else None | _ => None end
@@ -123,6 +135,8 @@ Section DeepEval.
     | _ =>
         if is_lin_op o then
           match vs with [RLeaf _ a] => Some (RLeaf R (lin o a)) | _ => None end
+        else if is_nlin_op o then
+          match leaves vs with Some xs => Some (RLeaf R (nlin o xs)) | None => None end
         else None
     end.
 
@@ -155,6 +169,13 @@ Section DeepEval.
     match deval_from nodes (Some ([], ins)) with Some (env, _) => Some env | None => None end.
 
   (* ---------- vocabulary of the correctness statement ---------- *)
+  (* pointwise sum of two operand lists of an n-ary operation *)
+  Fixpoint vadd (l l' : list R) : list R :=
+    match l, l' with
+    | x :: l, y :: l' => radd x y :: vadd l l'
+    | _, _ => []
+    end.
+
   Definition T3 (a b c : R) : rval := RTup R [RLeaf R a; RLeaf R b; RLeaf R c].
 
   (* source value [vs] vs. compiled value [vc] of a node: equal when the node is public, a triple of
